@@ -830,7 +830,7 @@ class AsyncFIXConnection:
             elif msg.msg_type == FMsg.HEARTBEAT:
                 await self._process_heartbeat(msg)
             else:
-                if is_valid_msg_num:
+                if is_valid_msg_num and msg_seq_num == self._session.next_num_in:
                     await self.on_message(msg)
                 else:
                     self.log.debug(f"_process_message: skipped app msg: {msg}")
